@@ -313,6 +313,47 @@ fn duplicate_members_case<P: G>(cfg: Cfg) -> Box<dyn Case> {
     })
 }
 
+/// Many wrong seeds against one output, judged through the mask type's OWN equality as well as through its components (the
+/// recovered object a wallet compares): 2048 seeds, none of them yields an object equal to the true mask
+fn wrong_seed_sweep_case<P: G>(cfg: Cfg) -> Box<dyn Case> {
+    case(format!("{}/{}/wrong-seed-sweep", P::NAME, cfg.key()), move |_v| {
+        use tari_bulletproofs_plus::extended_mask::ExtendedMask;
+        fg::clear_intern();
+        let mut res = CaseResult::new("explored");
+        let mut wit = Wit::default_for(&cfg);
+        let s = seed_scalar(5);
+        wit.seed = Some(s);
+        let built = build_cached::<P>(&cfg, &wit).honest();
+        let proof = lib_prove_honest(&built, &CTX_A, &mut HRng::chacha(61));
+        let truth = match ExtendedMask::assign(crate::api::ext(cfg.d), wit.blindings[0].clone()) {
+            Ok(m) => m,
+            Err(_) => return res,
+        };
+        for i in 0..2048u64 {
+            let wrong = seed_scalar(100_000 + i);
+            let st = restate(&built, built.commitments.clone(), wit.promises.clone(), Some(wrong)).unwrap();
+            let mut ts = vec![CTX_A.transcript()];
+            let r = catch(|| P::verify(&mut ts, std::slice::from_ref(&st), std::slice::from_ref(&proof), VerifyAction::RecoverOnly));
+            res.executions += 1;
+            res.transitions += 1;
+            match r {
+                Ok(Ok(masks)) => match masks.into_iter().next().flatten() {
+                    Some(m) => {
+                        res.validated += 1;
+                        *res.outcome_counter("wrong-seed-checked") += 1;
+                        if m == truth || m.blindings().ok() == truth.blindings().ok() {
+                            res.violate(format!("wrong-seed#{}", i), "a wrong seed yields a mask object that compares equal to the true mask");
+                        }
+                    },
+                    None => res.violate(format!("wrong-seed#{}", i), "no mask returned for a seeded statement"),
+                },
+                other => res.violate(format!("wrong-seed#{}", i), format!("RecoverOnly with a wrong seed failed: {:?}", other.map(|r| r.map(|_| ()).map_err(|e| crate::api::err_name(&e))))),
+            }
+        }
+        res
+    })
+}
+
 /// A batch beyond the chunk limit whose first chunk carries no seed: both recovering modes must agree on every mask
 fn long_consistency_case<P: G>() -> Box<dyn Case> {
     case(format!("{}/long-batch-consistency", P::NAME), move |_v| {
@@ -390,6 +431,10 @@ pub fn run(rep: &mut Report) {
     for cfg in [Cfg::new(2, 1, 1, 1), Cfg::new(8, 1, 2, 2), Cfg::new(32, 1, 1, 3), Cfg::new(64, 1, 1, 6)] {
         cases.push(duplicate_members_case::<F>(cfg));
         cases.push(duplicate_members_case::<RistrettoPoint>(cfg));
+    }
+    for cfg in [Cfg::new(2, 1, 1, 1), Cfg::new(2, 1, 1, 3)] {
+        cases.push(wrong_seed_sweep_case::<F>(cfg));
+        cases.push(wrong_seed_sweep_case::<RistrettoPoint>(cfg));
     }
     cases.push(long_consistency_case::<F>());
     cases.push(long_consistency_case::<RistrettoPoint>());
